@@ -8,38 +8,75 @@ from .. import coqrun as C
 from .. import core, engprop as E, hx
 from .. import indicators as X
 
-TOOL = 3
+# utils/timeframe.py serves the candle manager's collapse walk (bucket labels), which is outside the measure
+MANAGER_SIDE = "/hexital/utils/timeframe.py"
 WATCH = ("/hexital/indicators/", "/hexital/analysis/", "/hexital/utils/", "/hexital/core/indicator.py")
 
 
+_SIG: Dict[str, frozenset] = {}
+
+
+def signature_lines(fn: str) -> frozenset:
+    """Lines of "def" headers (decorators, name, parameters) in a source file.  Whether the
+    interpreter reports a line event for them on a call depends on how far the call site has
+    been specialised - on how hot the code is, not on what the library does - so they are not work."""
+    if fn not in _SIG:
+        import ast
+        lines = set()
+        try:
+            tree = ast.parse(open(fn).read())
+            for node in ast.walk(tree):
+                if isinstance(node, (ast.FunctionDef, ast.AsyncFunctionDef)):
+                    first = min([node.lineno] + [d.lineno for d in node.decorator_list])
+                    lines.update(range(first, node.body[0].lineno))
+        except (OSError, SyntaxError):
+            pass
+        _SIG[fn] = frozenset(lines)
+    return _SIG[fn]
+
+
 class LineCounter:
-    """Counts executed lines inside the indicator/analysis/utils code with sys.monitoring."""
+    """Counts executed lines inside the indicator/analysis/utils code with the classic line
+    tracer (sys.settrace): one event per line started in a frame, and one per backward jump.
+    The interpreter sometimes reports a line a second time after a call made from it returns,
+    depending on how far it has specialised the call site - on how hot the code is, not on what
+    the library does - which made the count differ by a line or two between runs of the same
+    work; such repeats (same frame, same line, later instruction) are not counted."""
 
     def __init__(self):
         self.count = 0
-        self.by_file: Dict[str, int] = {}
 
     def __enter__(self):
-        mon = sys.monitoring
-        mon.use_tool_id(TOOL, "verif-c07")
+        last: Dict = {}
 
-        def on_line(code, line):
-            fn = code.co_filename
-            if any(w in fn for w in WATCH):
-                self.count += 1
-                return None
-            return mon.DISABLE
+        def local(frame, event, arg):
+            if event == "line":
+                prev = last.get(frame)
+                here = (frame.f_lineno, frame.f_lasti)
+                last[frame] = here
+                # the same line reported again further on in the same frame (after a call made from
+                # it returned) is the artefact; the same line at an earlier or equal instruction
+                # offset is a loop iteration and counts
+                if prev is not None and prev[0] == here[0] and here[1] > prev[1]:
+                    return local
+                if frame.f_lineno not in signature_lines(frame.f_code.co_filename):
+                    self.count += 1
+            elif event == "return":
+                last.pop(frame, None)
+            return local
 
-        mon.register_callback(TOOL, mon.events.LINE, on_line)
-        mon.set_events(TOOL, mon.events.LINE)
+        def on_call(frame, event, arg):
+            fn = frame.f_code.co_filename
+            if any(w in fn for w in WATCH) and not fn.endswith(MANAGER_SIDE):
+                return local
+            return None
+
+        self._old = sys.gettrace()
+        sys.settrace(on_call)
         return self
 
     def __exit__(self, *a):
-        mon = sys.monitoring
-        mon.set_events(TOOL, 0)
-        mon.register_callback(TOOL, mon.events.LINE, None)
-        mon.free_tool_id(TOOL)
-        mon.restart_events()
+        sys.settrace(self._old)
         return False
 
 
@@ -66,16 +103,30 @@ def falsify(ctx, case: Dict) -> bool:
                 ind = X.build(specs[0], X.mk_rows(rows), case.get("hcfg", {}))
                 ind.calculate()
                 return ind
-            results = []
-            for n in sizes:
-                # the same trailing window of candles, preceded by histories of different length
-                hist = base[len(base) - n:]
-                results.append(work_of_last_appends(build, hist + tail_rows, len(tail_rows)))
+            def measure(ns):
+                out = []
+                for n in ns:
+                    # the same trailing window of candles, preceded by histories of different length
+                    hist = base[len(base) - n:]
+                    out.append(work_of_last_appends(build, hist + tail_rows, len(tail_rows)))
+                return out
+            results = measure(sizes)
             if any(r != results[0] for r in results[1:]):
+                # Different counts can also come from the data: a recursive indicator started at
+                # another point of the stream can sit in another state at the tail (Supertrend's
+                # direction) and take another branch.  That changes the work by a bounded amount
+                # once; work that depends on the history length keeps growing.  So the lengths are
+                # measured again together with a still longer history, and the case fails when the
+                # work strictly grows from each length to the next.
+                longer = [n for n in (2 * max(sizes),) if n <= len(base)]
+                ns = list(sizes) + longer
+                results = measure(ns)
                 growth = [sum(r) for r in results]
-                bad = {"relation": "work-depends-on-history-length",
-                       "grows": growth[-1] > growth[0]}
-                detail = dict(zip(sizes, growth))
+                if all(a < b for a, b in zip(growth, growth[1:])):
+                    bad = {"relation": "work-grows-with-history-length"}
+                    detail = {"total": dict(zip(ns, growth)), "per_append": results}
+                else:
+                    ctx.count("work_differs_without_growth")
     except Exception as e:  # noqa
         return False     # totality is C09's subject
     if bad:
@@ -120,7 +171,7 @@ def run(ctx: core.Ctx) -> int:
                 {"kind": "STDEV", "kw": {"period": 5, "input_value": "nosuch"}, "round_value": 4},
                 {"kind": "SMA", "kw": {"period": 5, "input_value": "nosuch"}, "round_value": 4}])]
             kind = "always-None"
-        base = X.gen_rows(rng, max(sizes), regime="walk", late=0)
+        base = X.gen_rows(rng, 2 * max(sizes), regime="walk", late=0)
         for r in base:
             r["inds"] = {}
         tail = X.gen_rows(rng, 4, regime="walk", late=0)
@@ -128,7 +179,11 @@ def run(ctx: core.Ctx) -> int:
         for i, r in enumerate(tail):
             r["ts"] = t0 + 60 * (i + 1)
             r["inds"] = {}
-        hcfg = rng.choice([{}, {}, {"lifespan": 60 * 120}]) if not as_hexital else {}
+        # manager settings: the work must not depend on history under any of them (a timeframe with or
+        # without gap filling, converted candles, a lifespan)
+        hcfg = rng.choice([{}, {}, {"lifespan": 60 * 120}, {"tf": "T1", "fill": True}, {"tf": "T5"},
+                           {"tf": "T5", "fill": True}, {"ha": True}]) if not as_hexital else \
+            rng.choice([{}, {}, {"tf": "T1", "fill": True}, {"tf": "T5", "fill": True}, {"ha": True}])
         c = {"specs": specs, "base": base, "tail": tail, "sizes": sizes, "hexital": as_hexital, "hcfg": hcfg}
         ctx.count("eval_falsifier")
         falsify(ctx, c)
@@ -137,10 +192,10 @@ def run(ctx: core.Ctx) -> int:
         if len(ctx.samples) < 3:
             ctx.sample({"specs": specs, "hexital": as_hexital, "hcfg": hcfg, "history_lengths": sizes, "appends_measured": len(tail)})
     ctx.coverage.update({"input_distribution": dist, "history_lengths": sizes,
-                         "measure": "executed lines (sys.monitoring LINE events) inside hexital/indicators, hexital/analysis, hexital/utils and hexital/core/indicator.py during each of 4 single-candle appends",
+                         "measure": "executed lines (sys.settrace line events, def headers excluded) inside hexital/indicators, hexital/analysis, hexital/utils and hexital/core/indicator.py during each of 4 single-candle appends",
                          "nontrivial_rule": "every case compares the same trailing candles appended after histories of different lengths"})
     ctx.assumptions.append("CPU time is represented by executed-line counts in the indicator code; the candle manager's own "
-                           "re-collapse walk is outside the measure, as the property's observation point lists indicator, analysis and utils code")
+                           "re-collapse walk (candle_manager.py and its bucket-label helper utils/timeframe.py) is outside the measure, as the property's observation point lists indicator, analysis and utils code")
     return core.finish(ctx, proof)
 
 
